@@ -257,7 +257,11 @@ func c19(r *mon.Run) {
 		"join('\t', arr[*].to_string(@))", "contains(s, '\n')", "'a\tb\nc\rd'", "`\"tab\\there\"`", "[`1`,\n\t`2`]\r\n", "{k:\n'v\tw'}", "\"a\" ||\n 'multi\nline'", "sum(a)", "avg(arr)", "avg(objs[*].n)", "sum(objs[*].n)", "[n, s, t, b, c]", "max(a)", "a[0]", "sum(a) == t", "objs[?n > `0.5`].n | [0]", "[[[[[[[[[[[[[[[[[[[[[[[[[[[[[[[[[[[[[[[[@]]]]]]]]]]]]]]]]]]]]]]]]]]]]]]]]]]]]]]]]", "{a:{a:{a:{a:{a:{a:{a:{a:{a:{a:{a:{a:{a:{a:{a:{a:{a:{a:{a:{a:{a:{a:{a:{a:{a:{a:{a:{a:{a:{a:{a:{a:{a:{a:{a:{a:@}}}}}}}}}}}}}}}}}}}}}}}}}}}}}}}}}}}}", "a", "a.a", "[0]", "type(@)", "length(@)", "reverse(@)", "starts_with(@, '[')", "foo.bar", "sort(@)", "join(',', @)", "[0]", "@ == '[]'", "\"max:Infinity\"", "contains(a, 'NaN')", "arr[?contains(@, 'NaN')]", "objs[?s == 'NaN'].n", "length(s)", "keys(@)", "arr[0]", "ends_with(s, ', 0)')",
 		// words a command-line program might take for a sub-command or a flag value: here they are field names
 		"version", "help", "h", "v", "usage", "completion", "input", "stdin", "file", "filename", "expr", "ast", "true", "false", "null", "test", "run", "env", "list", "get", "jpgo", "version.number", "help || s", "[version, help]", "{version: n, help: s}"}
-	evalErr := []string{"abs('x')", "abs()", "nosuchfn(@)", "arr[::0]", "sort_by(objs, &@)", "length(n)", "[abs(s), n]", "objs[*].abs(s)", "merge(@, `1`)", "to_string(&a)", "sum(a)", "max(`[1, \"a\"]`)"}
+	evalErr := []string{"abs('x')", "abs()", "nosuchfn(@)", "arr[::0]", "sort_by(objs, &@)", "length(n)", "[abs(s), n]", "objs[*].abs(s)", "merge(@, `1`)", "to_string(&a)", "sum(a)", "max(`[1, \"a\"]`)",
+		// one expression per place where the library raises an evaluation error (whatever classifies errors to pick an exit status has a class for each)
+		"abs(`1`, `2`)", "not_null()", "merge()", "unknown_function_name(@)", "length(`1`)", "max_by(objs, &s) | max_by(`[{\"k\":1},{\"k\":\"x\"}]`, &k)", "max_by(`[{\"k\":\"x\"},{\"k\":1}]`, &k)", "max_by(`[{\"k\":[1]}]`, &k)", "min_by(`[{\"k\":1},{\"k\":\"x\"}]`, &k)", "min_by(`[{\"k\":\"x\"},{\"k\":2}]`, &k)",
+		"min_by(`[{\"k\":null}]`, &k)", "sort_by(`[{\"k\":1},{\"k\":\"x\"}]`, &k)", "sort_by(`[{\"k\":\"x\"},{\"k\":1}]`, &k)", "sort_by(`[{\"k\":1},{\"k\":2},{\"k\":\"x\"},{\"k\":0}]`, &k)", "sort_by(`[{\"k\":true}]`, &k)", "sum(`[1e308, 1e308]`)", "sum([`-1e308`, `-1e308`])", "`[1,2]`[::0]", "arr[1::0]",
+		"map(&abs(@), `[1, \"x\"]`)", "sort_by(objs, &abs(s))", "[`1`, `2`][?abs(@) > `1` && length(@) > `0`]", "join(`1`, arr)", "join(',', arr)", "contains(`1`, `1`)", "keys(arr)", "values(s)", "to_number(&a)", "reverse(`1`)", "ceil('x')", "starts_with(s, `1`)", "avg(`[1, \"x\"]`)", "sort(`[1, \"x\"]`)", "min(`[[1]]`)", "merge(@, arr)", "map(a, arr)", "type()", "type(@, @)"}
 	// number-sensitive expressions, crossed systematically with the number-heavy inputs and both plain channels (the first invocations of every run):
 	// the printed text must be that of the value the library computes from the input as encoding/json decodes it
 	numExprs := []string{"type(id)", "id > `0`", "abs(id)", "arr[?@ > `0`]", "sort(arr)", "max(arr)", "sum(arr)", "id == `9007199254740992`", "to_string(id)", "to_number(id)", "ceil(id)", "not_null(id)", "arr[*].type(@)", "avg(arr)",
